@@ -94,6 +94,13 @@ CLAIMED = {
         "reaches logos unchanged, and the parser constructs no text range of its own (resolved calls, lexer as positive control).",
    technique="static analysis: table agreement + pairing rule in build_tree + who-may-call on resolved callees (MIR)",
    ref="DESIGN.md section 4, C12"),
+ "C19": dict(
+   text="Static decision of the naming tables: the keyword table equals Go's 25 keywords with an order-independent lookup; the reserved "
+        "Go-level names (extracted from the runtime) must be protected from user definitions; every gensym prefix must lie outside the user "
+        "identifier grammar (extracted from the lexer), prefixes are non-confusable; type-name encoders encode tuple arity / array length. "
+        "Injectivity of the encoders over all types is not decided.",
+   technique="static analysis: table extraction against a constant oracle, table difference (reserved vs protected names), regex membership of prefixes in the lexer's identifier grammar",
+   ref="DESIGN.md section 4, C19"),
  "C20": dict(
    text="Static decision on the resolved call graph: every panic-capable site (panic/unreachable/assert/unwrap/expect/str range slice) "
         "reachable from the hover/completion entry points is a reviewed ledger entry or a grammar precondition whose call sites are all "
